@@ -67,8 +67,12 @@ def main():
                 print(name, "CAUGHT" if tgt in fired else ("caught-by-sibling-only" if others else "MISSED"), (fired.get(tgt) or [""])[0][:200], "also:" + ",".join(others) if others else "", flush=True)
                 if props == PROPS:
                     json.dump({"targeted": tgt, "fired": fired}, open("/verif/seeded/%s/verdicts.json" % name, "w"), indent=1)
-    if kind == "refactorings" and props == PROPS and not only:
-        json.dump(res, open("/verif/refactorings/verdicts.json", "w"), indent=1)
+    if kind == "refactorings" and props == PROPS:
+        allres = res
+        if only and os.path.exists("/verif/refactorings/verdicts.json"):   # partial run: update those entries
+            allres = json.load(open("/verif/refactorings/verdicts.json"))
+            allres.update(res)
+        json.dump(allres, open("/verif/refactorings/verdicts.json", "w"), indent=1)
     bad = [n for n, f in res.items() if (f if kind == "refactorings" else n[:3] not in f)]
     print("done: %d items, %d %s" % (len(res), len(bad), "fired (false alarms)" if kind == "refactorings" else "not caught by the targeted check"))
 
